@@ -30,6 +30,8 @@
 #include "cache.hh"
 #include "dwit.hh"
 
+#include <stdexcept>
+
 struct dwfl_context::pimpl
 {
   parent_cache m_parcache;
@@ -80,7 +82,9 @@ dwfl_context::get_machine () const
 	GElf_Ehdr ehdr;
 	if (gelf_getehdr (elf, &ehdr) == nullptr)
 	  throw_libelf ();
-	assert (machine == EM_NONE || machine == ehdr.e_machine);
+	if (machine != EM_NONE && machine != ehdr.e_machine)
+	  throw std::runtime_error
+	    ("ELF files of several machines in one Dwarf are not supported.");
 	machine = ehdr.e_machine;
       }
     else
